@@ -4,6 +4,7 @@
 (* bytes of a request stream and closed its connection.  The harness       *)
 (* classifies n by where it falls (`at`: "start" before the first byte,    *)
 (* "inside" a request, "between" requests, "end" after the last byte,      *)
+(* "held" after the last byte while a backend request was being held,      *)
 (* "afterquit") and reports, after the system settled (or a deadline       *)
 (* passed): backend connections still open, goroutines above the           *)
 (* baseline, whether a fresh client could operate on the same keys and     *)
@@ -24,6 +25,7 @@ PhaseOf(at) == CASE at = "start" -> {"detect"}
                  [] at = "inside" -> {"parse"}
                  [] at = "between" -> {"parse", "exec", "reply"}
                  [] at = "end" -> {"parse", "exec", "reply"}
+                 [] at = "held" -> {"exec", "reply"}   \* the backend was held: the client left mid-execution
                  [] at = "afterquit" -> {"aborted"}
 
 TInit == l = 1
